@@ -381,3 +381,20 @@ func (p *Prog) Implementations(iface *types.Interface, method string, rels ...st
 	sort.Slice(out, func(i, j int) bool { return out[i].String() < out[j].String() })
 	return out
 }
+
+// PkgScopeNames returns the package-level objects of package rel, sorted by name.
+func (p *Prog) PkgScopeNames(rel string) []types.Object {
+	pk := p.Pkg(rel)
+	if pk == nil {
+		return nil
+	}
+	var out []types.Object
+	sc := pk.Types.Scope()
+	for _, n := range sc.Names() {
+		out = append(out, sc.Lookup(n))
+	}
+	return out
+}
+
+// TypePos is the position of a type declaration.
+func (p *Prog) TypePos(tn *types.TypeName) string { return p.Pos(tn.Pos()) }
